@@ -109,12 +109,33 @@ class CrashEngine:
 
     mon_violations = []
 
-    def baseline(self):
+    def baseline(self, record_start=False):
         self.mon_violations = []
-        st = self.ex.initial()
+        start_snaps = []
+        if record_start:
+            w = self.w
+            self.ex.record_start = True
+
+            def on_commit(conn):
+                if not getattr(w, "_engine_active", False):
+                    return
+                s = Snap()
+                s.blob = pack(conn.serialize())
+                s.ledger_len, s.ec, s.step, s.action, s.k = 0, {}, -1, "start:Orchestrator.start", len(start_snaps)
+                s.inflight, s.bus_len = s.action, len(w.bus_log)
+                start_snaps.append(s)
+
+            HOOKS.on_commit = on_commit
+        try:
+            st = self.ex.initial()
+        finally:
+            HOOKS.on_commit = None
+            self.ex.record_start = False
+        self.start_snaps = start_snaps
         # engine-activity flag: only commits made by engine code are crash points
         self._install_activity_flag()
         st, ledger, snaps = self.drive(st, record=True)
+        snaps = start_snaps + snaps
         self.base_final, self.base_ledger, self.snaps = st, ledger, snaps
         return st, ledger, snaps
 
